@@ -81,14 +81,14 @@ inline std::vector<Entry> build_catalog(int level, bool with_nan_args)
     cat.push_back(e);
     }
   }
-  std::vector<std::vector<u64>> tv(10);
-  for( int t = 0; t < 8; ++t ) tv[t] = int_type_values(t, level ? 5 : 3, 1, level ? 32 : 4, level != 0);
+  std::vector<std::vector<u64>> tv(T_CODES);
+  for( int t : INT_TYPES ) tv[t] = int_type_values(t, level ? 5 : 3, 1, level ? 32 : 4, level != 0);
   tv[T_F32] = cat_float_values(level ? 3 : 2); tv[T_F64] = cat_double_values(level ? 3 : 2);
   static const char* FIN[3] = { "fixed_t{n}", "integral_to_fixed", "make_fixed" };
   static const char* TIN[3] = { "fixed_to_integral", "static_cast<T>(fixed)", "fixed_to_arithmetic" };
   static const char* FFN[3] = { "fixed_t{v}", "floating_point_to_fixed", "make_fixed" };
   static const char* TFN[2] = { "fixed_to_floating_point", "static_cast<T>(fixed)" };
-  for( int t = 0; t < 8; ++t )
+  for( int t : INT_TYPES )
     {
     for( int how = 0; how < FI_COUNT; ++how )
       { Entry e; e.name = std::string(FIN[how]) + " <" + TN[t] + ">"; e.call = [how,t](Shim* s, u64 a, u64) { return static_cast<u64>(s->fm_from_int(how, t, a)); };
@@ -110,21 +110,21 @@ inline std::vector<Entry> build_catalog(int level, bool with_nan_args)
     }
   static const char* OPC[4] = { "+", "-", "*", "/" };
   static const char* ORD[3] = { "fixed op T", "T op fixed", "fixed op= T" };
-  for( int t = 0; t < 10; ++t ) for( int op = 0; op < 4; ++op ) for( int ord = 0; ord < 3; ++ord )
+  for( int t : ALL_TYPES ) for( int op = 0; op < 4; ++op ) for( int ord = 0; ord < 3; ++ord )
     {
     if( t == T_F64 && ord == O_ASSIGN ) continue;
     Entry e; e.name = std::string("operator") + OPC[op] + " (" + ORD[ord] + ", T=" + TN[t] + ")";
     e.call = [op,t,ord](Shim* s, u64 a, u64 b) { return s->fm_mixed(op, t, ord, static_cast<i64>(a), b); };
     e.A = Sm; e.B = tv[t]; e.afmt = fmt_i; e.bn = "t"; e.dbl = t == T_F64;
-    e.bfmt = t < 8 ? std::function<std::string(u64)>([t](u64 b) { return int_s(t, b); }) : t == T_F32 ? std::function<std::string(u64)>(fmt_f32) : std::function<std::string(u64)>(fmt_f64);
+    e.bfmt = is_int_type(t) ? std::function<std::string(u64)>([t](u64 b) { return int_s(t, b); }) : t == T_F32 ? std::function<std::string(u64)>(fmt_f32) : std::function<std::string(u64)>(fmt_f64);
     cat.push_back(e);
     }
   static const char* AF[3] = { "sin_angle", "cos_angle", "tan_angle" };
-  for( int fn = 0; fn < A_COUNT; ++fn ) for( int t = 0; t < 9; ++t )
+  for( int fn = 0; fn < A_COUNT; ++fn ) for( int t : { T_I8, T_I16, T_I32, T_I64, T_U8, T_U16, T_U32, T_U64, T_LL, T_ULL, T_F32 } )
     {
     Entry e; e.name = std::string(AF[fn]) + " <" + TN[t] + ">"; e.call = [fn,t](Shim* s, u64 a, u64) { return static_cast<u64>(s->fm_xangle(fn, t, a)); };
-    e.A = t < 8 ? int_type_values(t, level ? 6 : 4, 2, level ? 1024 : 400) : cat_float_values(level ? 4 : 3); e.an = "angle";
-    e.afmt = t < 8 ? std::function<std::string(u64)>([t](u64 b) { return int_s(t, b); }) : std::function<std::string(u64)>(fmt_f32);
+    e.A = is_int_type(t) ? int_type_values(t, level ? 6 : 4, 2, level ? 1024 : 400) : cat_float_values(level ? 4 : 3); e.an = "angle";
+    e.afmt = is_int_type(t) ? std::function<std::string(u64)>([t](u64 b) { return int_s(t, b); }) : std::function<std::string(u64)>(fmt_f32);
     cat.push_back(e);
     }
   {
